@@ -443,6 +443,51 @@ fn run_size<A: DevElem + FromI>(c: &SizeCase, lx: &mut Local) {
     });
 }
 
+impl DevElem for i128 {
+    const NAME: &'static str = "i128";
+    const IS_FLOAT: bool = false;
+    fn mk(d: u8) -> i128 {
+        [-3, 0, 1, 4][d as usize]
+    }
+    fn rat(&self) -> Rat {
+        Rat::from_i(*self)
+    }
+}
+
+/// large values that are close to each other: the differences are small and exact, the values themselves
+/// are beyond 2^53 (integers) or ill-conditioned (floats around 1e8 differing by 1e-3, or by 1e-9)
+fn run_close(c: &(usize, u8, u8), lx: &mut Local) {
+    let (n, fill, ty) = *c;
+    lx.nontrivial(true);
+    macro_rules! go {
+        ($t:ty, $base:expr, $mk:expr, $maxv:expr) => {{
+            let a: Vec<$t> = (0..n).map(|i| $mk($base, ((i * 5 + fill as usize) % 7) as i64 - 3)).collect();
+            let b: Vec<$t> = (0..n).map(|i| $mk($base, ((i * 3 + 2 * fill as usize) % 5) as i64 - 2)).collect();
+            let w = want_of(&a, &b);
+            let maxv: $t = $maxv;
+            lx.single(|lx| {
+                let ha = Host1::new(&a, if n % 2 == 0 { 1 } else { -1 }, 1, a[0].clone());
+                let hb = Host1::new(&b, 2, 1, b[0].clone());
+                let ctx = || format!("a = {:?}, b = {:?}", a, b);
+                match measure(&ha.view(), &hb.view(), maxv.clone()) {
+                    Ok(m) => judge(&m, &w, &maxv, &ctx, lx),
+                    Err(e) => {
+                        lx.fail("C09/failed", || format!("[{}] {}; {}", <$t as DevElem>::NAME, e, ctx()));
+                        0
+                    }
+                }
+            });
+        }};
+    }
+    match ty {
+        0 => go!(i64, 1i64 << 60, |b: i64, k: i64| b + k * 3, 255i64),
+        1 => go!(i128, 1i128 << 100, |b: i128, k: i64| b + k as i128 * 3, 255i128),
+        2 => go!(BigInt, BigInt::from(1u64 << 40) * BigInt::from(1u64 << 40), |b: BigInt, k: i64| b + BigInt::from(k * 3), BigInt::from(255)),
+        3 => go!(f64, 1e8f64, |b: f64, k: i64| b + k as f64 * 1e-3, 2e8f64),
+        _ => go!(f64, 0.5f64, |b: f64, k: i64| b + k as f64 * 1e-9, 1.0f64),
+    }
+}
+
 fn main() {
     let mut rep = Report::new("C09");
     rep.rule = "case = (operand a, operand b over a 4-value alphabet, element type) with a rotating stride pair (1-D); (shape, layout of a, layout of b, fill, ownership pair, type) in n-D; non-trivial = at least 2 elements".into();
@@ -514,6 +559,12 @@ fn main() {
                 _ => run_size::<BigInt>(c, lx),
             }
         },
+    );
+    rep.run_sub(
+        "large-close-values",
+        "operands of length 1..=9 x 5 fills whose elements are large but close: i64 around 2^60, i128 around 2^100, BigInt around 2^80 (differences are small multiples of 3), f64 around 1e8 differing by multiples of 1e-3, f64 around 0.5 differing by multiples of 1e-9 (mean squared error ~ 1e-17)",
+        (1..=9usize).flat_map(|n| (0..5u8).flat_map(move |fill| (0..5u8).map(move |ty| (n, fill, ty)))),
+        run_close,
     );
     let thorough = rep.cfg.thorough();
     let mut cases: Vec<CaseN> = Vec::new();
